@@ -4,6 +4,7 @@ import (
 	"bufio"
 	"bytes"
 	"context"
+	"errors"
 	"fmt"
 	"io"
 
@@ -30,7 +31,7 @@ type countSeekReader struct{ countReader }
 
 func (c *countSeekReader) Seek(off int64, whence int) (int64, error) {
 	n, err := c.r.(io.Seeker).Seek(off, whence)
-	if err == nil && whence == io.SeekStart {
+	if err == nil { // the position the reader is left at, whatever the reference point of the seek
 		c.pulled = int(n)
 	}
 	return n, err
@@ -147,6 +148,13 @@ type plainReader struct{ r io.Reader }
 
 func (p plainReader) Read(b []byte) (int, error) { return p.r.Read(b) }
 
+type seekFailReader struct{ r *bytes.Reader }
+
+func (s *seekFailReader) Read(p []byte) (int, error) { return s.r.Read(p) }
+func (s *seekFailReader) Seek(int64, int) (int64, error) {
+	return 0, errors.New("seek: illegal seek")
+}
+
 func makeReader(kind string, stream []byte, sched []int) io.Reader {
 	switch kind {
 	case "", "bytes":
@@ -157,6 +165,12 @@ func makeReader(kind string, stream []byte, sched []int) io.Reader {
 		return bufio.NewReaderSize(&chunkReader{b: stream, sched: sched}, 4096)
 	case "plain":
 		return plainReader{bytes.NewReader(stream)}
+	case "seekoff": // a seekable reader handed over positioned behind 8 bytes that are not part of the stream
+		rd := bytes.NewReader(append([]byte("8 bytes!"), stream...))
+		rd.Seek(8, io.SeekStart)
+		return rd
+	case "seekfail": // a reader with a Seek method that fails (a file opened on a pipe)
+		return &seekFailReader{bytes.NewReader(stream)}
 	case "chunk":
 		return &chunkReader{b: stream, sched: sched}
 	case "chunkseek":
@@ -786,8 +800,7 @@ func runRewind(sc *streamScenario, rec *recorder) {
 	runRewindOn(sc, sc.SID, bs, rec)
 	if sc.Run.PSize == -1 && len(bs.pkts) >= 2 {
 		// the same stream behind 193 bytes that are no packet: under auto-detection the first attempt of a fresh Demuxer fails (and consumes
-		// its window), the second one succeeds and seeks back to offset 0, from where nothing is aligned any more - errors to the end.
-		// A rewound Demuxer has to go through exactly the same (nothing is ever delivered, so the program map cannot matter)
+		// its window), the second one succeeds. A rewound Demuxer has to go through exactly the same
 		junk := make([]byte, 193)
 		for i := range junk {
 			junk[i] = byte(0x10 + i%0x30)
@@ -911,7 +924,7 @@ func runReader(sc *streamScenario, rec *recorder, level int) {
 	}
 	add(188, false, "bytes", nil, "reference") // run 0
 	for _, sz := range []int{188, 189, 190, 191, 192} {
-		for _, rd := range []string{"bytes", "bufio", "plain"} {
+		for _, rd := range []string{"bytes", "bufio", "plain", "seekoff", "seekfail"} {
 			add(sz, true, rd, nil, "full")
 		}
 	}
@@ -1009,20 +1022,21 @@ func runReader(sc *streamScenario, rec *recorder, level int) {
 		}
 		// auto-detection domain: two packets, and no sync-like byte in the tail of the first frame (DESIGN.md 7)
 		_, isTrunc := trunc[c.desc]
+		ambig := false
 		if c.auto && !isTrunc {
 			ok := len(bs.pkts) >= 2
-			for i := 188; i < c.size && ok; i++ {
-				if stream[i] == 0x47 {
-					ok = false
-				}
-			}
 			if !ok {
 				continue
 			}
+			for i := 188; i < c.size; i++ {
+				if stream[i] == 0x47 {
+					ambig = true // a 0x47 among the last bytes of the first frame: the size detection cannot tell it from the next sync byte
+				}
+			}
 		}
 		class := "ref"
-		if c.auto && (c.reader == "plain" || c.reader == "chunk") {
-			class = "plainauto"
+		if c.auto && (c.reader == "plain" || c.reader == "chunk" || c.reader == "seekfail") {
+			class = "plainauto" // (a reader whose Seek fails cannot be given the detection window back: read on like one that cannot seek)
 		}
 		if isTrunc {
 			class = "trunc"
@@ -1031,7 +1045,7 @@ func runReader(sc *streamScenario, rec *recorder, level int) {
 		if c.auto {
 			run.PSize = -1
 		}
-		rec.ev(M{"ev": "cfg", "r": r, "size": c.size, "auto": c.auto, "reader": c.reader, "sched": c.desc, "class": class})
+		rec.ev(M{"ev": "cfg", "r": r, "size": c.size, "auto": c.auto, "reader": c.reader, "sched": c.desc, "class": class, "ambig": ambig})
 		{
 			dmx := newDemuxer(makeReader(c.reader, stream, c.sched), run)
 			for k := 0; k < bound; k++ {
